@@ -237,20 +237,22 @@ Definition step (s : state) (a : action) : option state :=
       | _ => None
       end
   | AStart p =>
+      (* [p_alive = false] means that cancellation of the connection has been requested; the
+         acceptor keeps running until it notices (AStop), so its moves do not depend on it. *)
       let x := s_peers s p in
-      match p_alive x, p_acc x, p_permits x with
-      | true, AIdle, S k =>
-          Some (set_peer s p {| p_alive := true; p_avail := p_avail x; p_permits := k;
+      match p_acc x, p_permits x with
+      | AIdle, S k =>
+          Some (set_peer s p {| p_alive := p_alive x; p_avail := p_avail x; p_permits := k;
                                 p_acc := AWatch (s_ver s) (qmin (s_q s)) |})
-      | _, _, _ => None
+      | _, _ => None
       end
   | AWake p =>
       let x := s_peers s p in
-      match p_alive x, p_acc x with
-      | true, AWatch seen _ =>
+      match p_acc x with
+      | AWatch seen _ =>
           if seen =? s_ver s then None
           else Some (set_peer s p (with_acc x (AWatch (s_ver s) (qmin (s_q s)))))
-      | _, _ => None
+      | _ => None
       end
   | AAvail p =>
       let x := s_peers s p in
@@ -275,8 +277,8 @@ Definition step (s : state) (a : action) : option state :=
                       s_sent := s_sent s;
                       s_dropped := if p_alive x then s_dropped s else c :: s_dropped s |}
           | None =>
-              (* "someone else accepts our request faster": wait again if still active *)
-              Some (set_peer s p (with_acc x (if p_alive x then AWatch (s_ver s) (qmin (s_q s)) else AIdle)))
+              (* "someone else accepts our request faster": wait again *)
+              Some (set_peer s p (with_acc x (AWatch (s_ver s) (qmin (s_q s)))))
           end
       | _ => None
       end
